@@ -109,13 +109,18 @@ def run(ctx):
     # cache counting
     cput, cget, cnew = P.fn("cache_put"), P.fn("cache_get"), P.fn("cache_entry_create")
     r1.instance("cache use counts")
-    dec = [e for b, i, e, lhs, rhs, op in cput.stores() if cput.fields_of(lhs)[-1:] == ("use_cnt",) and op in ("--", "post--")]
-    inc = [e for b, i, e, lhs, rhs, op in cget.stores() if cget.fields_of(lhs)[-1:] == ("use_cnt",) and op in ("++", "post++")]
-    one = [e for b, i, e, lhs, rhs, op in cnew.stores() if cnew.fields_of(lhs)[-1:] == ("use_cnt",) and rhs is not None and C.const_of(cnew, rhs) == 1]
+    # the counting field, by role: the member the put path decrements
+    cntf = sorted({cput.fields_of(lhs)[-1] for b, i, e, lhs, rhs, op in cput.stores() if op in ("--", "post--") and cput.fields_of(lhs)})
+    if len(cntf) != 1:
+        raise Broken("C18.R1: use-count field of the cache not identified (%s)" % cntf)
+    cntf = cntf[0]
+    dec = [e for b, i, e, lhs, rhs, op in cput.stores() if cput.fields_of(lhs)[-1:] == (cntf,) and op in ("--", "post--")]
+    inc = [e for b, i, e, lhs, rhs, op in cget.stores() if cget.fields_of(lhs)[-1:] == (cntf,) and op in ("++", "post++")]
+    one = [e for b, i, e, lhs, rhs, op in cnew.stores() if cnew.fields_of(lhs)[-1:] == (cntf,) and rhs is not None and C.const_of(cnew, rhs) == 1]
     freed_on_zero = False
     for b, cond in C.cond_blocks(cput):
         l, op, r = C.cond_atom(cput, cond, True)
-        if cput.fields_of(l)[-1:] == ("use_cnt",) and not isinstance(r, tuple) and C.const_of(cput, r) == 0 and op == "==":
+        if cput.fields_of(l)[-1:] == (cntf,) and not isinstance(r, tuple) and C.const_of(cput, r) == 0 and op == "==":
             only = C.only_via_edge(cput, b, "T")
             if any(cput.nodes[e]["k"] == "call" and cput.nodes[e].get("callee") == "cache_entry_destroy" for bb in only for e in cput.blocks[bb].elems):
                 alld = [cput.where()[c][0] for c in cput.calls("cache_entry_destroy")]
